@@ -1,6 +1,7 @@
 (* C18 - Curve self-intersections (partial: the shape of the result; genuineness / completeness inherit C02/C03). *)
 From Coq Require Import List ZArith QArith Bool.
-From BZ Require Import Model.SelfIsect Theory.SelfIsectTheory.
+From Coq Require Import Qcanon.
+From BZ Require Import Base.Ops Base.QcInst Model.Curve Model.SelfIsect Theory.SelfIsectTheory Model.SelfIsectN Theory.SelfIsectGenuine.
 Import ListNotations.
 Open Scope Q_scope.
 
@@ -17,3 +18,28 @@ Theorem C18_small_turning_angle_is_empty : forall fuel rest ints,
   self_isect (S fuel) {| angles := true :: rest; isects := ints |} = Some ([], {| angles := rest; isects := ints |}).
 Proof. reflexivity. Qed.
 Print Assumptions C18_small_turning_angle_is_empty.
+
+(* genuineness at every depth: with the control nets carried along (Model/SelfIsectN.v, any field of characteristic 0), if every
+   answer of the inner all_intersections(left, right) calls is a set of common points of the two halves it was asked about
+   (C02), then every reported pair (s1, s2) satisfies B(s1) = B(s2) on the ORIGINAL curve: the rescaling s/2, (1+t)/2 of the
+   glue is exactly the reparametrisation of the halves. *)
+Theorem C18_reported_pairs_are_self_intersections :
+  forall (T : Type) (K : Ops T), field_of K -> char0 K -> forall (eqb : T -> T -> bool) fuel rows st res calls st',
+  wf_rows rows -> self_isect_n K eqb fuel rows st = Some (res, calls, st') ->
+  Forall (genuine_call K) calls -> forall p, In p res -> point K rows (fst p) = point K rows (snd p).
+Proof. exact @reported_pairs_are_self_intersections. Qed.
+Print Assumptions C18_reported_pairs_are_self_intersections.
+(* non-vacuity: the cubic loop x = (-9, 13, -13, 9), y = (0, 1, 1, 0) meets itself at s = 1/4 and s = 3/4; with the genuine
+   answers of the oracles (large angle, then two small; the halves meet at (1/2, 1/2) and at the junction (1, 0)) the model
+   reports exactly (1/4, 3/4), and the crossing answer is genuine for the two halves *)
+Example C18_cubic_loop :
+  let rows := qcm [[-9; 13; -13; 9]; [0; 1; 1; 0]] in
+  let st := mkS [false; true; true] [[(Q2Qc (1 # 2), Q2Qc (1 # 2)); (Q2Qc 1, Q2Qc 0)]] in
+  match self_isect_n QcOps Qc_eqb 5 rows st with
+  | Some (res, [(l, r, _)], _) =>
+      map (fun p => (this (fst p), this (snd p))) res = [(1 # 4, 3 # 4)] /\
+      map this (point QcOps l (Q2Qc (1 # 2))) = map this (point QcOps r (Q2Qc (1 # 2))) /\
+      map this (point QcOps l (Q2Qc 1)) = map this (point QcOps r (Q2Qc 0))
+  | _ => False
+  end.
+Proof. vm_compute. repeat split; reflexivity. Qed.
